@@ -1,4 +1,4 @@
-import FxVerif.Proofs.C04Step
+import FxVerif.Proofs.C04Ext
 import FxVerif.Gen.C04
 /-!
 # C04 — bridge solvency: holdings + in-flight = initial + deposits − executed withdrawals; operations move only what
@@ -38,6 +38,110 @@ theorem flows_match_code :
     (∀ g c u n, calls (addBridgeFee .moduleOwned g c (U u) n) = addUnbatchedTxBridgeFee_other) := by
   refine ⟨?_, ?_, ?_, ?_, ?_, ?_, ?_, ?_, ?_, ?_, ?_, ?_, ?_, ?_, ?_, ?_, ?_, ?_⟩ <;> intros <;>
     first | rfl | (rename_i b; cases b <;> rfl)
+
+/-! ### batch life cycle: statement order of `RequestBatch` / `BuildOutgoingTxBatch`, cancel rule of
+`OutgoingTxBatchExecuted`, nonce rule of the bridge contracts — regenerated from the sources -/
+
+/-- translator tie for the batch life cycle: the statement lists the model interprets are the ones read off the Go AST
+(guards with the way they leave the function, the pool-removing `pickUnBatchedTx`, `StoreBatch`, in source order); the
+cancel loop of `OutgoingTxBatchExecuted` compares `<` and filters by token; every bridge-logic contract accepts a batch
+iff `state_lastBatchNonces[token] < nonce` and keeps that nonce per token -/
+theorem batch_rules_match_code :
+    FxVerif.Gen.C04.buildOutgoingTxBatch_steps = buildSteps ∧
+    FxVerif.Gen.C04.requestBatch_steps = requestSteps ∧
+    FxVerif.Gen.C04.executedCancelRule = cancelRule ∧
+    FxVerif.Gen.C04.solBatchNonceRules ≠ [] ∧
+    (∀ r ∈ FxVerif.Gen.C04.solBatchNonceRules, r.2 = (Cmp.lt, true)) := by
+  refine ⟨rfl, rfl, rfl, by decide, by decide⟩
+
+/-- the order conditions hold for the statement lists as they are in the source now -/
+theorem request_batch_order_safe :
+    safeOrder 0 FxVerif.Gen.C04.buildOutgoingTxBatch_steps = true ∧
+    reqSafe false FxVerif.Gen.C04.requestBatch_steps = true := by decide
+
+/-- **a batch request moves no value, whatever the statement lists are, as long as they are well ordered**: for every
+pair of statement lists of `BuildOutgoingTxBatch` / `RequestBatch` that satisfy `safeOrder` (between picking transfers
+out of the pool and storing the batch every exit is an error, and the function does not end in between) and `reqSafe`
+(a build error is propagated before any successful return), for every argument, chain state and token: a request that
+succeeds leaves the value in pool + batches + bridge calls unchanged.  (A failing request changes nothing at all:
+`failed_op_is_noop`.) -/
+theorem request_batch_conserves (bs : List BStep) (rs : List RStep) (hb : safeOrder 0 bs = true)
+    (hr : reqSafe false rs = true) (a : RArgs) (cs cs' : ChainSt) (g : Nat)
+    (h : runRequest bs a rs (cs, none) = .ok cs') : chainInFlight g cs' = chainInFlight g cs :=
+  runRequest_conserves bs a g (chainInFlight g cs) hb rs false cs none hr (fun _ => by simp) (fun _ => rfl) cs' h
+
+/-- … and the order matters: with the minimum-fee guard of `BuildOutgoingTxBatch` answering `(nil, nil)` (it sits after
+`pickUnBatchedTx`) and `RequestBatch` answering a nil batch with an empty success, a request whose minimum fee exceeds
+the picked fees succeeds and the picked transfers are gone from every store.  Either change alone is harmless (the
+other site turns it into an error): `reqSafe` holds for the unchanged `requestSteps`, `safeOrder` for `buildSteps`. -/
+theorem request_batch_unsafe_order_loses_value :
+    let bs : List BStep := [.guard .maxZero .err, .guard .notProfitable .err, .pick, .guard .pickErr .err,
+      .guard .noTx .err, .guard .belowMinFee .okNoBatch, .guard .zeroTimeout .err, .store, .guard .storeErr .err]
+    let rs : List RStep := [.guard .badSender .err, .guard .noToken .err, .guard .notOracle .err, .build,
+      .guard .buildErr .err, .guard .nilBatch .okEmpty, .respond]
+    let cs : ChainSt := { pool := [⟨1, 0, 1, 5, 1, false⟩, ⟨2, 0, 1, 7, 2, false⟩], nextTx := 3 }
+    safeOrder 0 bs = false ∧
+    (match runRequest bs ⟨true, true, ⟨1, 0, 100⟩⟩ rs (cs, none) with
+     | .ok cs' => decide (chainInFlight 1 cs = 15 ∧ chainInFlight 1 cs' = 0)
+     | .error _ => false) = true ∧
+    -- one site alone: an error, i.e. nothing is committed
+    (match runRequest bs ⟨true, true, ⟨1, 0, 100⟩⟩ requestSteps (cs, none) with | .ok _ => false | .error _ => true) = true ∧
+    (match runRequest buildSteps ⟨true, true, ⟨1, 0, 100⟩⟩ rs (cs, none) with | .ok _ => false | .error _ => true) = true := by
+  decide
+
+/-- the bridge contract's acceptance rule, with the comparison regenerated from `FxBridgeLogic.sol` -/
+def solCmp : Cmp := (FxVerif.Gen.C04.solBatchNonceRules.head?.map (·.2.1)).getD .unknown
+
+/-- `submitBatch` would still execute batch `b` of chain state `cs` -/
+def extAccepts (cs : ChainSt) (b : Batch) : Prop := extAcceptsWith solCmp cs b
+
+/-- **fxcore's pending batches are exactly the batches the external chain can still execute**: for every configuration,
+ledger and operation sequence, on every chain, a batch is stored on fxcore iff it was built there, the contract's last
+executed nonce OF ITS TOKEN is below its nonce, and its timeout has not passed.  So no batch is released (its
+transfers refundable) while the external chain can still pay it out, and no dead batch keeps transfers locked. -/
+theorem executable_batches_are_the_pending_ones (cfg : Cfg) (L : Ledger) (ops : List Op) (c : Nat) (b : Batch) :
+    extAccepts ((runOps cfg (init L) ops).chains c) b ↔ b ∈ ((runOps cfg (init L) ops).chains c).batches := by
+  have hinv := runOps_inv cfg ops (init L) (init_inv L) c
+  have hc : solCmp = .lt := rfl
+  simp only [extAccepts, extAcceptsWith, hc, Cmp.eval, decide_eq_true_eq]
+  constructor
+  · rintro ⟨h1, h2, h3⟩; exact hinv.acc_pend b h1 h2 h3
+  · intro h; exact hinv.pend_ok b h
+
+/-- **every execution the external chain can perform is accounted**: in every reachable state, if the contract still
+accepts batch `b` of chain `c`, the observed `MsgSendToExternalClaim` for it is processed (no "unknown batch" panic),
+counts exactly the batch's value as withdrawn, and moves no balance. -/
+theorem executable_execution_is_accounted (cfg : Cfg) (L : Ledger) (ops : List Op) (c : Nat) (hc : c < nChains)
+    (b : Batch) (h : extAccepts ((runOps cfg (init L) ops).chains c) b) :
+    ∃ s', step cfg (runOps cfg (init L) ops) (.executed c b.g b.nonce) = .ok s' ∧
+      s'.L = (runOps cfg (init L) ops).L ∧
+      (∀ g, s'.withdrawn g = (runOps cfg (init L) ops).withdrawn g + poolValue g b.txs) ∧
+      (∀ g, s'.deposited g = (runOps cfg (init L) ops).deposited g) := by
+  have hmem := (executable_batches_are_the_pending_ones cfg L ops c b).mp h
+  have hinv := runOps_inv cfg ops (init L) (init_inv L) c
+  generalize runOps cfg (init L) ops = s at hmem hinv ⊢
+  have hf := filter_isBatch_unique _ b hmem hinv.nodup
+  refine ⟨finish s c (executedWith cancelRule (s.chains c) b.g b.nonce) []
+    (b.txs.map (fun t => (t.g, t.amount + t.fee))), ?_, rfl, ?_, fun _ => rfl⟩
+  · simp [step, Op.chain?, hc, stepCore, hf, pure, Except.pure]
+  · intro g
+    simp only [finish, setChain, bumpAll_val]
+    congr 1
+    simp only [tokensValue, poolValue, List.map_map]
+    rfl
+
+/-- the token filter of the cancel loop is needed: with `iterBatch.BatchNonce < batch.BatchNonce` alone, executing the
+batch of token 2 (nonce 2) releases the pending batch of token 1 (nonce 1) although the contract still accepts it
+(its last executed nonce of token 1 is 0) -/
+theorem executed_without_token_filter_releases_executable_batch :
+    let b1 : Batch := ⟨1, 1, [⟨1, 0, 1, 5, 1, false⟩]⟩
+    let b2 : Batch := ⟨2, 2, [⟨2, 0, 2, 7, 2, false⟩]⟩
+    let cs : ChainSt := { batches := [b2, b1], created := [b2, b1], nextBatch := 3, nextTx := 3 }
+    let cs' := executedWith ⟨.lt, false⟩ cs 2 2
+    (decide (b1 ∈ cs'.created ∧ cs'.extLast b1.g < b1.nonce ∧ (b1.g, b1.nonce) ∉ cs'.expired ∧ b1 ∉ cs'.batches ∧
+       cs'.pool = b1.txs) &&
+     -- the rule of the source keeps it pending
+     decide (b1 ∈ (executedWith cancelRule cs 2 2).batches)) = true := by decide
 
 /-! ### conservation -/
 
